@@ -80,6 +80,15 @@ func NewRun(prop, tier string, seed int64, driver string) *Run {
 
 func (r *Run) Thorough() bool { return r.Tier == "thorough" }
 
+// FailureTotal is the number of failed cases so far (all classes): streams whose damaged runs grow without bound stop early on it
+func (r *Run) FailureTotal() int {
+	n := 0
+	for _, c := range r.Res.FailureCounts {
+		n += c
+	}
+	return n
+}
+
 // Add registers a case whose Impl/Oracle have been computed; model comparison is deferred to Flush.
 func (r *Run) Add(c *Case) {
 	r.Res.Evaluations++
